@@ -4,7 +4,7 @@ from ..rules import filt, sampling, codec
 
 def run(ck):
     P = facts.load()
-    ck.not_decided = ('not decided: the fetched value, affine stepping versus per-pixel division, convolution alignment, SIMD scalers.')
+    ck.not_decided = ('not decided: the fetched value, affine stepping versus per-pixel division, convolution alignment beyond axis consistency, SIMD scalers.')
     sampling.r4_repeat_typestate(ck, P)
     codec.r10_bilinear_weight(ck, P)
     sampling.r3_iter_instantiation(ck, P)
